@@ -725,7 +725,8 @@ class TextFileLoader(
                 ifile,
                 dtype=dtype,
                 comments=self._header_comment,
-                usecols=usecols)
+                usecols=usecols,
+                ndmin=1)
 
         data = DataFieldRecordArray(
             data_ndarray,
